@@ -69,7 +69,7 @@ func reRegistered(r *ev.Run, caseID string, i int) {
 	detail := map[string]any{"max_tries": maxTries, "url_path": path, "auth": auth[0]}
 	// deliveries run on their own goroutines (and so do the HTTP connections they use, keep-alives are off): at rest when the
 	// goroutine count has been back at the level measured before the first submission for several polls in a row
-	base := runtime.NumGoroutine()
+	base := restingGoroutines()
 	settle := func() bool {
 		quiet := 0
 		for k := 0; k < 300000; k++ {
@@ -137,6 +137,11 @@ func reRegistered(r *ev.Run, caseID string, i int) {
 			r.Inconclusive(caseID, "a header was not stored or its deliveries did not come to rest")
 			return
 		}
+		awaitPost(func() bool { mu.Lock(); defer mu.Unlock(); return posts[h] >= 1 })
+		if !settle() {
+			r.Inconclusive(caseID, "deliveries did not come to rest")
+			return
+		}
 		hashes = append(hashes, h)
 	}
 	mu.Lock()
@@ -156,6 +161,30 @@ func reRegistered(r *ev.Run, caseID string, i int) {
 }
 
 var _ = ev.Spec{}
+
+// restingGoroutines: the goroutine count once it has stopped changing for 20 ms (goroutines of the case before - closing
+// connections, a stack being torn down - may still be winding down when a case starts; a baseline read too early is too
+// high, and "back at the baseline" would then be reached while deliveries are still in flight).
+func restingGoroutines() int {
+	last, same := runtime.NumGoroutine(), 0
+	for k := 0; k < 3000 && same < 20; k++ {
+		time.Sleep(time.Millisecond)
+		if g := runtime.NumGoroutine(); g == last {
+			same++
+		} else {
+			last, same = g, 0
+		}
+	}
+	return last
+}
+
+// awaitPost waits (5 s at most) until got() reports the expected POST: a delivery that is going to happen has then been
+// seen, whatever the goroutine count said; one that never comes is still missing after 5 s.
+func awaitPost(got func() bool) {
+	for k := 0; k < 5000 && !got(); k++ {
+		time.Sleep(time.Millisecond)
+	}
+}
 
 // slashTwins: two webhooks whose URLs differ by a trailing slash are two webhooks. One is revoked; the other is still
 // registered and gets exactly one event for every header stored afterwards.
@@ -197,7 +226,7 @@ func slashTwins(r *ev.Run, caseID string, i int) {
 		r.Count("twin_cases_skipped_revocation_refused", 1)
 		return
 	}
-	base0 := runtime.NumGoroutine()
+	base0 := restingGoroutines()
 	settle := func() bool {
 		quiet := 0
 		for k := 0; k < 300000; k++ {
@@ -226,6 +255,11 @@ func slashTwins(r *ev.Run, caseID string, i int) {
 			return
 		}
 		prev = h.HashOf()
+		awaitPost(func() bool { mu.Lock(); defer mu.Unlock(); return posts[keep+"|"+h.HashOf().String()] >= 1 })
+		if !settle() {
+			r.Inconclusive(caseID, "deliveries did not come to rest")
+			return
+		}
 		mu.Lock()
 		gotKeep, gotDrop := posts[keep+"|"+h.HashOf().String()], posts[drop+"|"+h.HashOf().String()]
 		mu.Unlock()
